@@ -12,6 +12,12 @@ C = 'histories: BFS over operation sequences against a model of the global gener
 
 # id -> (engine, technique, level text, level note, design ref)
 CHECKS = {
+    'C20': ('rngmc', 'exploration of ALL random-generator answers (every permutation / threshold outcome / repair choice) per parameter tuple',
+            'For every parameter tuple of a small grid (makerandCIJ_und n<=4, makerandCIJ_dir n=3, makeringlatticeCIJ n=4..6, makeevenCIJ n=4, '
+            'makefractalCIJ 2 levels: all 2^16 threshold outcomes, maketoeplitzCIJ n=3: all 2^9 outcomes per draw up to two draws, '
+            'makerandCIJdegreesfixed: all realisable degree-sequence pairs on 3-4 nodes) every generator answer is executed and the output judged: '
+            'shape, 0/1 entries, empty diagonal, exactly K (pairs, symmetric for _und), reported count, degree sequences, ring bands filled nearest first.',
+            'trusted: threshold representatives 0.0/0.999999 for compare-only draws; menus bounded by 8!; makerandCIJdegreesfixed give-ups (BCTParamError) are documented and not judged', 'DESIGN.md section 4 C20'),
     'C06': ('rngmc', 'explicit-state exploration of ALL generator answers (node-quadruple picks incl. rejected ones, weight-dealing orders) on signed 4-node inputs',
             'randmio_und_signed / randmio_dir_signed (1-2 iterations, 256-way pick menu) and null_model_und_sign / null_model_dir_sign '
             '(bin_swaps 0 / one iteration x wei_freq 0, 1, 0.5) on symmetric and directed sign patterns with distinct magnitudes: every reachable '
